@@ -1,5 +1,6 @@
 """C01 Served state survives restart: snapshot plus log replay reproduces it exactly."""
 import re
+from rn.facts import op_place as facts_op_place
 from rn import cfg, util
 from rn.flow import Taint, field_place_src
 from rn.facts import rv_operands, op_const
@@ -455,6 +456,9 @@ def r01e(ck, fb):
 # persisted-state codecs (snapshot records, log records, catalogue): function -> (target type regex, fields that may be filled without the input,
 # one reason each). Any OTHER field of the built value that is not derived from the function's input is reported: it would be dropped /
 # defaulted by every snapshot, log entry or restart.
+LITERAL_ALT_OK = {
+    ('From<ConfigValueDO>forConfigValue', 'last_modified'): 'derived from the newest history item; 0 when there is none',
+}
 CODEC_TABLE = [
     ('rnacos::cache::model::CacheValue::to_do', r'DirectCacheItemDo$', {'timeout': 'filled by the caller from the cache entry'}),
     ('rnacos::mcp::model::mcp::McpServer::from_do', r'mcp::McpServer$', {}),
@@ -510,12 +514,30 @@ def _codec_row(ck, fb, b, adt_rx, allowed, key):
             src = any(f in util.assigned_fields(y) or any(f in [e for e in util.recv_fields(y, s)] for s in y.calls(r'::(insert|push)$')) for y in fb.tree(b.name))
             if not src:
                 lost.append(f)
+    # R01r: a numeric / bool field that is carried is carried verbatim - never replaced by a literal on some path (a "default" for a value the
+    # encoder writes as it is makes the served value change across a snapshot: weight 0 -> 1, port 0 -> 8080, false -> true)
+    for f, o in zip(rv['fields'], rv['ops']):
+        if f in allowed or (key, f) in LITERAL_ALT_OK:
+            continue
+        d = cfg.describe_operand(x, o)
+        if d['k'] != 'multi':
+            continue
+        p = facts_op_place(o)
+        ty = x.local_ty(p) if isinstance(p, int) else ''
+        if not re.match(r'^(f32|f64|u8|u16|u32|u64|usize|i8|i16|i32|i64|isize|bool)$', ty or ''):
+            continue
+        lits = [dbb for (kind, dbb, dj, node) in d.get('defs', []) if kind == 'stmt' and node['rv']['k'] in ('use', 'cast') and 'c' in node['rv']['op']]
+        ck.require(not lits, 'R01r', key + ':' + f, x.where(lits[0]) if lits else x.where(i),
+                   'codec %s replaces the %s field `%s` by a literal on some path: a value the other side writes verbatim comes back different '
+                   'after a snapshot / restart (e.g. a stored 0 read back as a default)' % (b.name, ty, f), 'carried on every path')
     ck.require(not lost, 'R01f', key, x.where(i),
                'codec %s fills %s of the persisted value without using its input: the field is dropped / reset by every snapshot, log entry or restart' % (b.name, lost),
                '%d fields carried' % (len(rv['fields']) - len([f for f in rv['fields'] if f in allowed])))
 
 
 def r01f(ck, fb):
+    ck.rule('R01r', 'persisted numeric / bool fields are carried verbatim by every codec of R01f: the operand of such a field is never a value that a '
+                    'branch replaces by a literal (a decoder default for a value the encoder writes as it is changes what is served after a restart)')
     ck.rule('R01f', 'persisted-value codecs carry every field: in each encoder/decoder on the snapshot / log / catalogue path every field of the value '
                     'it builds is derived from the function input, except a frozen list of fields with a stated reason')
     n = 0
